@@ -170,6 +170,7 @@ macro_rules! flavour_mod {
             pub type N = Node<usize, i64, u32>;
             pub type G = Graph<usize, i64, u32>;
             kind_items!($kind);
+            pub const SYNC: bool = $tag;
 
             pub struct St {
                 pub nodes: Vec<N>,
@@ -331,7 +332,20 @@ macro_rules! flavour_mod {
                     };
                     let out: Result<String, ()> = if let Some(op) = eop {
                         let before = if ctx.has("contract") { Some(st.lists()) } else { None };
+                        if SYNC {
+                            crate::hook::trace_start();
+                        }
                         let r = catch_unwind(AssertUnwindSafe(|| edge_op(&st, &op, via)));
+                        if SYNC {
+                            // lock requests of this call, as `<W|R><node key|m>@<guards held>`; handle provenance may add
+                            // its own (read-only) requests before the call proper, so only `clone` handles are traced
+                            let ev = crate::hook::trace_take();
+                            ext.last_lt = if via == "clone" {
+                                Some(ev.iter().map(|(a, w, h)| format!("{}{}@{}", if *w { "W" } else { "R" }, ext.lockmap.iter().find(|x| x.0 == *a).map_or("m".to_string(), |x| x.1.to_string()), h)).collect::<Vec<_>>().join(","))
+                            } else {
+                                None
+                            };
+                        }
                         let r = match r {
                             Ok(r) => r,
                             Err(_) => {
@@ -380,6 +394,14 @@ macro_rules! flavour_mod {
                         let r = catch_unwind(AssertUnwindSafe(|| match t[0] {
                             "new" => {
                                 st.nodes.push(N::new(p(1), t[2].parse::<i64>().unwrap()));
+                                if SYNC {
+                                    // learn the address of this node's lock from one read request
+                                    crate::hook::trace_start();
+                                    let _ = st.nodes.last().unwrap().is_orphan();
+                                    if let Some(first) = crate::hook::trace_take().first() {
+                                        ext.lockmap.push((first.0, p(1)));
+                                    }
+                                }
                                 "ok".to_string()
                             }
                             "dump" => dump(&st),
@@ -410,10 +432,10 @@ macro_rules! flavour_mod {
     };
 }
 
-flavour_mod!(di, digraph, di, "di");
-flavour_mod!(sdi, sync_digraph, di, "sdi");
-flavour_mod!(un, ungraph, un, "un");
-flavour_mod!(sun, sync_ungraph, un, "sun");
+flavour_mod!(di, digraph, di, false);
+flavour_mod!(sdi, sync_digraph, di, true);
+flavour_mod!(un, ungraph, un, false);
+flavour_mod!(sun, sync_ungraph, un, true);
 
 /// runs a whole program (sequence of cases, each starting with `case <fl> <id>`)
 pub fn run_program(lines: &[String], ctx: &mut Ctx) {
